@@ -27,7 +27,7 @@ ACTIONS = ("VerifyPrev", "GetUdTyped", "NodeCall1", "NodeCall2", "Onboard", "Han
 MODEL_BUGS = (("notweak", "AlteredFails"), ("dropfirst", "GenuineVerifies"), ("maxpages", "GenuineGathers"),
               ("swapmsg", "GenuineVerifies"), ("wrongtweak", "GenuineVerifies"), ("nobind", "AlteredFails"),
               ("nohealth", "AlteredFails"), ("udslice", "GenuineGathers"), ("noidcheck", "NodeBad"),
-              ("nostatus", "NodeBad"), ("derpad", "GenuineVerifies"), ("setdefault", "GenuineVerifies"), ("rstrip", "GenuineVerifies"))
+              ("nostatus", "NodeBad"), ("derpad", "GenuineVerifies"), ("setdefault", "GenuineVerifies"), ("rstrip", "GenuineVerifies"), ("sigcheck", "GenuineGathers"))
 NEGATIVES = ("NeverVerifies", "NeverGatherFails", "NeverVerifyFails", "NeverLegacy", "NeverFourPages",
              "NeverNodeOk", "NeverReorgOk", "NeverNodeFails", "NeverRootByUrl", "NeverRootUrlBad", "NeverShapedOk", "NeverSecondRunOk", "NeverInplaceOk",
              "NeverSecondRunAlteredFails", "NeverDigestOk")
@@ -176,6 +176,8 @@ def random_case(rng):
     if rng.random() < 0.3:          # any alteration / network choice may meet any signature shape
         shapes = attflow.SHAPES_SECP if plat == "ledger" else attflow.SHAPES_P256
         b["shape"] = {"site": rng.choice(attflow.SIG_SITES[plat]), "cls": rng.choice(shapes)}
+        if plat == "sgx" and rng.random() < 0.5:
+            b["shape"] = {"site": "q_sig", "cls": rng.choice(attflow.SHAPES_QUOTE)}
     if site == "none" and rng.random() < 0.3:          # ... any digest shape
         dsite = rng.choice(attflow.DIGEST_SITES[plat])
         if not (dsite == "ak" and cfg["qeauth"] < 4):
